@@ -212,6 +212,7 @@ class Inliner:
             line = nt.get("line", 0)
             def asg(dst, op):
                 pre.append({"s": "assign", "line": line, "exp": bool(nt.get("exp")), "lhs": {"l": dst, "p": []}, "rhs": {"rv": "use", "op": op}, "inl_arg": True})
+            rust_call = t.get("callee") in ("std::ops::FnOnce::call_once", "std::ops::FnMut::call_mut", "std::ops::Fn::call")
             if shim_mode == "spread" and len(args) == 2:
                 # fn item called through FnOnce/FnMut/Fn: (f, (a, b, ..)) -> f(a, b, ..)
                 tup = args[1]
@@ -221,7 +222,7 @@ class Inliner:
                         asg(clb_next + 1 + k, {"k": tup["k"], "pl": {"l": pl["l"], "p": pl["p"] + [{"f": k, "n": str(k), "ty": "?"}]}})
                     else:
                         asg(clb_next + 1 + k, {"k": "other"})
-            elif len(args) == argc and shim_mode is None:
+            elif len(args) == argc and shim_mode is None and not (rust_call and "{closure#" in cd and len(args) == 2):
                 for k, a in enumerate(args):
                     asg(clb_next + 1 + k, a)
             elif "{closure#" in cd and len(args) == 2 and argc >= 1:
